@@ -1,4 +1,4 @@
-from contracts import ipc_c
+from contracts import ipc_c, serve_c
 
 def build(tier):
-    return dict(targets=ipc_c.targets(tier), assumptions=[], trusted_base=[])
+    return dict(targets=ipc_c.targets(tier) + serve_c.targets(tier), assumptions=[], trusted_base=[])
